@@ -320,7 +320,7 @@ fn build_expr(
                 ty,
             }
         }
-        hir::Expr::EStructLiteral { .. } => {
+        hir::Expr::EStructLiteral { fields, .. } => {
             let Some(elab) = results.struct_lit_elab(expr_id) else {
                 return tast::Expr::EVar {
                     name: "<error>".to_string(),
@@ -328,6 +328,68 @@ fn build_expr(
                     astptr: None,
                 };
             };
+            let ty = results.expr_ty(expr_id).cloned().unwrap_or(tast::Ty::TUnit);
+
+            // The constructor takes its arguments in declaration order of the fields, but the
+            // initialisers of a literal run in the order they are written. When the two orders
+            // differ, evaluate the initialisers first, as written, and hand the constructor the
+            // results: `S { b: f(), a: g() }` becomes `{ let b = f(); let a = g(); S(a, b) }`.
+            let written: Vec<hir::ExprId> = fields.iter().map(|(_, e)| *e).collect();
+            let declared: Vec<hir::ExprId> = elab
+                .args
+                .iter()
+                .filter_map(|arg| match arg {
+                    StructLitArgElab::Expr(e) => Some(*e),
+                    StructLitArgElab::Missing { .. } => None,
+                })
+                .collect();
+            let complete = declared.len() == elab.args.len() && declared.len() == written.len();
+            if complete && declared != written {
+                let temp_name = |e: hir::ExprId| {
+                    let field = fields
+                        .iter()
+                        .find(|(_, field_expr)| *field_expr == e)
+                        .map(|(name, _)| name.to_ident_name())
+                        .unwrap_or_default();
+                    format!("{}/lit{}", field, e.idx)
+                };
+                let mut exprs = Vec::with_capacity(written.len() + 1);
+                let mut temp_tys = Vec::with_capacity(written.len());
+                for e in written.iter().copied() {
+                    let value = build_expr(hir_table, results, e);
+                    let value_ty = value.get_ty();
+                    temp_tys.push((e, value_ty.clone()));
+                    exprs.push(tast::Expr::ELet {
+                        pat: tast::Pat::PVar {
+                            name: temp_name(e),
+                            ty: value_ty,
+                            astptr: None,
+                        },
+                        value: Box::new(value),
+                        ty: tast::Ty::TUnit,
+                    });
+                }
+                let args = declared
+                    .iter()
+                    .copied()
+                    .map(|e| tast::Expr::EVar {
+                        name: temp_name(e),
+                        ty: temp_tys
+                            .iter()
+                            .find(|(temp, _)| *temp == e)
+                            .map(|(_, ty)| ty.clone())
+                            .unwrap_or(tast::Ty::TUnit),
+                        astptr: None,
+                    })
+                    .collect::<Vec<_>>();
+                exprs.push(tast::Expr::EConstr {
+                    constructor: elab.constructor.clone(),
+                    args,
+                    ty: ty.clone(),
+                });
+                return apply_coercions(results, expr_id, tast::Expr::EBlock { exprs, ty });
+            }
+
             let args = elab
                 .args
                 .iter()
@@ -340,7 +402,6 @@ fn build_expr(
                     },
                 })
                 .collect::<Vec<_>>();
-            let ty = results.expr_ty(expr_id).cloned().unwrap_or(tast::Ty::TUnit);
             tast::Expr::EConstr {
                 constructor: elab.constructor.clone(),
                 args,
